@@ -209,3 +209,24 @@ def module_fingerprint():
     c = Canon(None)
     items = tuple((k, _cheap(c, v)) for k, v in module_roots())
     return digest(items), items
+
+
+_CLEAN = {}
+
+
+def clean_fingerprint():
+    """Fingerprint of lomond's module/class-level state, remembered from the first call (the runner makes that call before
+    any execution has run in the process; pool workers inherit it through fork)."""
+    if 'fp' not in _CLEAN:
+        _CLEAN['fp'], _CLEAN['items'] = module_fingerprint()
+    return _CLEAN['fp'], _CLEAN['items']
+
+
+def leaked_module_state():
+    """Names of lomond module/class-level containers or objects whose content differs from the clean process."""
+    fp0, items0 = clean_fingerprint()
+    fp, items = module_fingerprint()
+    if fp == fp0:
+        return []
+    clean = dict(items0)
+    return [k for k, v in items if clean.get(k) != v] or ['(new module-level state)']
